@@ -528,6 +528,13 @@ def hq_line(mode, dist, seed, n, k, init, ps):
     return "hq %s %s %d %d %d %s %s" % (mode, dist, seed, n, k, fmt_params(dist, init), fmt_params(dist, ps))
 
 
+ROUTES = ["single", "twice", "clone", "default"]
+
+
+def r_line(route, dist, seed, n, ps):
+    return "r %s %s %d %d %s" % (route, dist, seed, n, fmt_params(dist, ps))
+
+
 def parse_line(line):
     t = line.split()
     op = t[0]
@@ -540,6 +547,13 @@ def parse_line(line):
              "init": parse_params(dist, rest[:k]), "ps": parse_params(dist, rest[k:])}
         if op == "hq":
             o["k"] = int(t[5])
+        return o
+    if op == "r":
+        # peripheral route of the same object (single draws, two bulk calls, clone, Default + update): judged like `s`
+        return {"op": "s", "route": t[1], "dist": t[2], "seed": int(t[3]), "n": int(t[4]), "ps": parse_params(t[2], t[5:])}
+    if op == "mvns":
+        o = parse_line("mvn " + " ".join(t[1:]))
+        o["route"] = "single"
         return o
     if op == "s":
         return {"op": op, "dist": t[1], "seed": int(t[2]), "n": int(t[3]), "ps": parse_params(t[1], t[4:])}
@@ -568,9 +582,11 @@ def model_line(line):
     (the C18 theorem), so a stale cached sub-sampler in the Rust code is a correspondence difference."""
     if line.startswith("q") or line.startswith("hq"):
         return None
-    if line.startswith("h "):
+    if line.startswith("h ") or line.startswith("r "):
         o = parse_line(line)
         return s_line(o["dist"], o["seed"], o["n"], o["ps"])
+    if line.startswith("mvns "):
+        return "mvn " + line[5:]       # n calls of MVN::sample() = the model of sample_n
     return line
 
 
@@ -645,6 +661,205 @@ def histories(rng, tier):
         ("bern", [0.5], [U(0.01, 0.99)]), ("bern", [0.0], [U(0.01, 0.99)]),
     ]
     return hs
+
+
+def _up(x):
+    return math.nextafter(x, math.inf)
+
+
+def _dn(x):
+    return math.nextafter(x, -math.inf)
+
+
+FMAX = 1.7976931348623157e308
+TIE_ONLY = "tie-only"     # parameters at which the f64 draws are too coarse for the continuous CDF comparison
+
+
+def special_cases():
+    """Exact special values and threshold bands (GENERIC_STRATA 1, 3): just below / at / just above every constant the
+    sampler code branches on (gamma shape 1 and the historical 1/3, Poisson rate 10 and the factorial limit 150..171,
+    binomial n*p' = 30, p = 1/2, |p - 1| <= 2^-52, BTPE n*p*q = 42 (step 5.0: k < nrq/2 - 1 with k > 20), t dof 30 and 2,
+    Uniform width = f64::MAX, Bernoulli p in {0, 1}), integers, half-integers, 1/3, 2/3, powers of two and their
+    neighbours, tiny and huge magnitudes.  -> list of (dist, params, flag)"""
+    cs = []
+
+    def add(dist, ps, flag=None):
+        cs.append((dist, ps, flag))
+
+    third = 1.0 / 3.0
+    for a in [_dn(1.0), 1.0, _up(1.0), _dn(third), third, _up(third), 2.0 / 3.0, 0.5, 1.5, 2.5, 2.0, 3.0, 4.0, 10.0, 0.25, 64.0]:
+        add("gamma", [a, 1.0])
+    for a, b in [(2.0, 0.5), (0.5, 2.0), (3.0, 1e-300), (0.5, 1e300), (1.0, 2.0 ** -1000), (2.5, 2.0 ** 1000)]:
+        add("gamma", [a, b])
+    for a, b in [(_dn(1.0), 1.0), (1.0, _up(1.0)), (_up(1.0), _dn(1.0)), (1.0, 2.0), (2.0, 1.0), (3.0, 3.0), (0.5, 1.0), (1.0, 0.5),
+                 (1.5, 2.5), (third, 2.0 / 3.0), (2.0, 2.0), (10.0, 10.0), (_dn(third), _up(third)), (4.0, 0.25), (1.0, 171.0),
+                 (100.0, 100.0)]:
+        add("beta", [a, b])
+    for k in [1, 2, 3, 4, 5, 8, 59, 60, 61, 64, 1023, 1024]:
+        add("chi2", [k])
+    for v in [0.5, 1.0, 1.5, _dn(2.0), 2.0, _up(2.0), 3.0, 4.0, 2.0 / 3.0, 29.0, _dn(30.0), 30.0, _up(30.0), 31.0, 60.0, 100.0, 2.0 ** 20]:
+        add("t", [v])
+    for lam in [0.5, 1.0, 1.5, 2.0, 3.0, 5.0, 9.0, _dn(10.0), 10.0, _up(10.0), 11.0, 16.0, 100.0, 128.0, 149.0, _dn(150.0), 150.0,
+                _up(150.0), 151.0, 170.0, 171.0, 172.0, 1024.0, 2.0 ** 20, 1e-300, 2.0 ** -1022]:
+        add("poisson", [lam])
+    for n in [1, 2, 3, 31, 32, 33, 59, 60, 61, 62, 63, 64, 65, 167, 168, 169, 170, 172, 1000, 1023, 1024, 1025]:
+        add("binomial", [n, 0.5])
+    for n, p in [(199, 0.3), (200, 0.3), (201, 0.3), (200, 0.7), (120, 0.25), (121, 0.25), (119, 0.25), (100, 0.3), (300, 0.1),
+                 (301, 0.1), (60, _dn(0.5)), (60, _up(0.5)), (61, _up(0.5)), (61, _dn(0.5)), (50, 1.0 - 2.0 ** -52),
+                 (50, 1.0 - 2.0 ** -51), (50, 1.0 - 2.0 ** -50), (10, 5e-324), (10, 2.0 ** -53), (1000, third), (1000, 2.0 / 3.0),
+                 (30, 0.25), (1023, 0.01), (1025, 0.9), (2 ** 20, 2.0 ** -16), (2 ** 32, 2.0 ** -30), (2 ** 53 + 2, 1e-15),
+                 (1, 0.25), (1, 0.75), (2, _dn(1.0))]:
+        add("binomial", [n, p])
+    for mu, sg in [(0.0, 1.0), (-0.0, 1.0), (1.0, 2.0), (0.5, 0.5), (1e300, 1e299), (1e-300, 1e-300), (2.0 ** 60, 1.0), (0.0, -0.0),
+                   (-3.0, 2.0 ** -1000), (7.0, 2.0 ** 1000)]:
+        add("normal", [mu, sg])
+    add("normal", [0.0, 5e-324], TIE_ONLY)
+    add("normal", [1.0, 2.0 ** -1060], TIE_ONLY)
+    for lam in [0.5, 1.0, 2.0, third, 1e-300, 1e300, 2.0 ** -1000, 2.0 ** 1000]:
+        add("exp", [lam])
+    for mu, b in [(0.0, 1.0), (-0.0, 0.5), (1.0, 2.0), (1e300, 1e300), (0.0, 1e-300), (-2.0 ** 1000, 2.0 ** 1000)]:
+        add("gumbel", [mu, b])
+    for a, m in [(1.0, 1.0), (2.0, 1.0), (0.5, 1.0), (3.0, 1e-300), (50.0, 1e300), (1.0, 2.0 ** -1000), (third, 2.0), (1.0, 0.5)]:
+        add("pareto", [a, m])
+    for lo, hi in [(0.0, 1.0), (-0.0, 0.0), (-1.0, 1.0), (1.0, _up(1.0)), (0.0, 5e-324), (-1e308, 1e308), (-1.5e308, 1.2e308),
+                   (-FMAX, FMAX), (-FMAX, 1e300), (-FMAX / 2, FMAX / 2), (_dn(-FMAX / 2), FMAX / 2), (-8e307, 8e307),
+                   (1e308, 1.7e308), (-FMAX, -FMAX), (FMAX, FMAX), (0.0, FMAX), (-FMAX, 0.0), (0.5, 1.5), (2.0 ** 52, 2.0 ** 53)]:
+        add("uniform", [lo, hi], TIE_ONLY if (lo, hi) in ((1.0, _up(1.0)), (0.0, 5e-324)) else None)
+    for k in [1, 2, 3, 8, 16, 32, 53, 62]:
+        for hi in [2 ** k - 2, 2 ** k - 1, 2 ** k]:
+            if hi >= 1:
+                add("du", [0, hi])
+    for lo, hi in [(-1, 1), (-1, 0), (-2 ** 62, 2 ** 62 - 2), (-(2 ** 63), -(2 ** 63) + 5), (2 ** 63 - 7, 2 ** 63 - 2), (-(2 ** 63), -2),
+                   (2 ** 53, 2 ** 53 + 3)]:
+        # a narrow range far from 0 is not representable in the f64 output type: the cast merges neighbours
+        add("du", [lo, hi], TIE_ONLY if max(abs(lo), abs(hi)) > 2 ** 53 and hi - lo < 2 ** 40 else None)
+    for p in [0.5, 0.25, 0.75, third, 2.0 ** -53, 1.0 - 2.0 ** -53, _dn(1.0), 5e-324, 2.0 ** -1022]:
+        add("bern", [p])
+    return cs
+
+
+BULK_SMALL = [0, 1, 2, 3, 4, 5, 7, 8, 9, 15, 16, 17, 31, 32, 33, 63, 64, 65, 127, 128, 129, 255, 256, 257, 511, 512, 513,
+              1023, 1024, 1025, 2047, 2048, 2049, 4095, 4096, 4097]
+BULK_BIG = [32767, 32768, 32769, 65535, 65536, 65537]
+BULK_DISTS = [("normal", [1.0, 2.0]), ("gamma", [0.7, 1.5]), ("poisson", [25.0]), ("binomial", [300, 0.4]), ("beta", [2.0, 3.0]),
+              ("exp", [2.0]), ("uniform", [-1.0, 3.0]), ("du", [-5, 20]), ("t", [4.0])]
+SHAPES_SMALL = [(1, 1), (1, 2), (2, 1), (1, 33), (33, 1), (3, 5), (5, 3), (7, 64), (64, 7), (31, 33), (33, 31), (8, 8), (9, 9), (16, 17),
+                (17, 16), (1, 1025), (1025, 1), (32, 32), (33, 33), (0, 0), (0, 5), (5, 0)]
+SHAPES_BIG = [(128, 512), (512, 128), (256, 256), (255, 257), (1, 65537), (65537, 1), (181, 181), (32768, 2), (2, 32768), (3, 21846)]
+
+
+def special_covs(rng, d):
+    """-> [(label, mean, cov)] exact special covariances in dimension d (row-major lists, exactly symmetric)"""
+    import numpy as np
+
+    out = []
+    eye = np.eye(d)
+    out.append(("identity", [0.0] * d, eye))
+    out.append(("diagonal", [float(i) for i in range(d)], np.diag([2.0 ** (i - 2) for i in range(d)])))
+    if d >= 2:
+        c = np.full((d, d), 0.9) + 0.1 * eye          # strongly correlated, exactly representable pattern
+        out.append(("equicorrelated", [1.0] * d, c))
+        t = eye * 2.0                                   # tridiagonal: far from symmetric under L <-> L^T
+        for i in range(d - 1):
+            t[i, i + 1] = t[i + 1, i] = -1.0
+        t[0, 0] = 4.0
+        out.append(("tridiagonal", [-1.0] * d, t))
+    if d == 2:
+        out.append(("[[4,1.5],[1.5,1]]", [0.0, 0.0], np.array([[4.0, 1.5], [1.5, 1.0]])))
+    return [(lab, m, [float(x) for x in np.asarray(c).reshape(-1)]) for lab, m, c in out]
+
+
+def strata(rng, tier, count):
+    """GENERIC_STRATA pass: special values / thresholds, size boundaries of the bulk routes, peripheral routes, exact
+    power-of-two scale equivariance."""
+    lines = []
+    quick = tier == "quick"
+    nq = 100000 if quick else 1000000
+    # 1 + 3: special values and threshold bands: a 300-draw tie line each (two seeds in thorough), a route line for a
+    # rotating quarter, and the DKW summary
+    sp = special_cases()
+    for j, (dist, ps, flag) in enumerate(sp):
+        assert valid(dist, ps), (dist, ps)
+        rg = regime(dist, ps)
+        for _ in range(1 if quick else 3):
+            lines.append(s_line(dist, rng.u64(), 300, ps))
+            count("special:s:%s:%s" % (dist, rg))
+        if j % 4 == rng.randint(0, 3) or not quick:
+            lines.append(r_line(ROUTES[j % 4], dist, rng.u64(), 200, ps))
+            count("special:route:%s" % ROUTES[j % 4])
+        if flag != TIE_ONLY and regime(dist, ps) != "range>=2^63":
+            lines.append(q_line(dist, rng.u64(), nq, KQ, ps))
+            count("special:q:%s:%s" % (dist, rg))
+    # 2: size boundaries of sample_n / sample_matrix
+    for j, n in enumerate(BULK_SMALL):
+        ds = [BULK_DISTS[(j + k) % len(BULK_DISTS)] for k in range(2 if quick else len(BULK_DISTS))]
+        for dist, ps in ds:
+            lines.append(s_line(dist, rng.u64(), n, ps))
+            count("bulk:sample_n:small")
+    for j, n in enumerate(BULK_BIG):
+        ds = BULK_DISTS[:3]
+        for k, (dist, ps) in enumerate(ds):
+            if not quick or k == j % 3:
+                lines.append(s_line(dist, rng.u64(), n, ps))      # tie on the bulk route
+                count("bulk:sample_n:%d" % n)
+            lines.append(q_line(dist, rng.u64(), n, KQ, ps))       # count + DKW on the bulk route
+            count("bulk:q:%d" % n)
+    for j, (r, c) in enumerate(SHAPES_SMALL):
+        dist, ps = BULK_DISTS[j % len(BULK_DISTS)]
+        lines.append(m_line(dist, rng.u64(), r, c, ps))
+        count("bulk:sample_matrix:small")
+    for j, (r, c) in enumerate(SHAPES_BIG):
+        if not quick or j % 5 == rng.randint(0, 4):
+            dist, ps = BULK_DISTS[j % 3]
+            lines.append(m_line(dist, rng.u64(), r, c, ps))
+            count("bulk:sample_matrix:big")
+    # 4: peripheral routes of the same object, every distribution x every route
+    cs = cases(rng.fork("routes"), tier)
+    by = {}
+    for dist, ps in cs:
+        if regime(dist, ps) not in ("degenerate",) and not (dist == "du" and abs(ps[0]) > 2 ** 52):
+            by.setdefault(dist, []).append(ps)
+    for dist in sorted(by):
+        for route in ROUTES:
+            for _ in range(1 if quick else 3):
+                ps = rng.choice(by[dist])
+                lines.append(r_line(route, dist, rng.u64(), rng.choice([1, 2, 3, 100, 500, 1000]), ps))
+                count("route:%s:%s" % (dist, route))
+    # 5: exact scale equivariance (pairs of lines with the same seed; checked bit for bit by oracle_scale)
+    U, LU = rng.uniform, rng.loguniform
+    bases = [("normal", [U(-5, 5), LU(0.1, 10)]), ("uniform", [U(-5, 0), U(0.1, 5)]), ("gumbel", [U(-5, 5), LU(0.1, 10)]),
+             ("exp", [LU(0.1, 10)]), ("pareto", [LU(0.5, 5), LU(0.1, 10)]), ("gamma", [LU(0.2, 5), LU(0.1, 10)]),
+             ("gamma", [0.5, 1.0]), ("normal", [0.0, 1.0])]
+    for dist, ps in bases:
+        seed = rng.u64()
+        lines.append(s_line(dist, seed, 400, ps))
+        ks = SCALE_KS if not quick else [rng.choice(SCALE_KS[:4]), rng.choice(SCALE_KS[4:8]), rng.choice(SCALE_KS[8:])]
+        for k in ks:
+            lines.append(s_line(dist, seed, 400, scaled_params(dist, ps, k)))
+            count("scale:%s" % dist)
+    # MVN: sample_n vs repeated sample, size boundaries, special covariances, scale pairs
+    for d in range(1, 7):
+        covs = special_covs(rng, d)
+        m0, c0 = spd(rng, d)
+        covs.append(("random", m0, c0))
+        for j, (lab, mean, cov) in enumerate(covs):
+            ns = [1, 2, 3, 31, 32, 33, 64, 65, 257] if not quick else [rng.choice([1, 2, 3]), rng.choice([31, 32, 33, 64, 65, 257])]
+            for n in ns:
+                seed = rng.u64()
+                lines.append(mvn_line(seed, n, mean, cov))
+                lines.append("mvns" + mvn_line(rng.u64(), n, mean, cov)[3:])
+                count("mvn:%s:bulk+single" % lab)
+            if d >= 2 and lab in ("tridiagonal", "[[4,1.5],[1.5,1]]", "equicorrelated") and (not quick or (d + j) % 2 == 0):
+                lines.append(qmvn_line(rng, rng.u64(), nq, mean, cov, KQ))
+                count("qmvn:%s" % lab)
+        # scale pair
+        seed = rng.u64()
+        k = rng.choice([1, -1, 3, -7, 40, -40])
+        f = math.ldexp(1.0, k)
+        lines.append(mvn_line(seed, 50, m0, c0))
+        lines.append(mvn_line(seed, 50, [x * f for x in m0], [x * f * f for x in c0]))
+        count("scale:mvn")
+    return lines
 
 
 INVALID = [("normal", [0.0, -1.0]), ("gamma", [0.0, 1.0]), ("gamma", [1.0, -2.0]), ("beta", [-1.0, 1.0]), ("beta", [1.0, 0.0]),
@@ -773,6 +988,7 @@ def gen(rng, tier):
         for mode in (modes if tier != "quick" else [modes[j % len(modes)]]):
             lines.append(hq_line(mode, dist, rng.u64(), nq if tier == "quick" else nq // 4, KQ, init, ps))
             count("hq:%s:%s" % (dist, MODES[mode]))
+    lines += strata(rng.fork("strata"), tier, count)
     for dist, ps in INVALID:
         lines.append(s_line(dist, rng.u64(), 3, ps))
         count("invalid-params")
@@ -843,6 +1059,9 @@ def oracle(lines, impl):
             # same criterion as for a fresh object; the key and the message name how the object was reached
             rg += ":after-" + MODES[o["hist"]]
             dist_shown = "%s%r.%s -> %s" % (dist, o["init"], MODES[o["hist"]], dist)
+        elif "route" in o:
+            rg += ":via-" + o["route"]
+            dist_shown = "[route %s] %s" % (o["route"], dist)
         else:
             dist_shown = dist
         if st == "diverged":
@@ -911,6 +1130,90 @@ def oracle(lines, impl):
                 fails.append(Failure(i, "%s:dkw:%s" % (dist, rg),
                                      "%s%r seed %d n %d: sup|F_n - F| >= %.6f at x = %r exceeds the DKW band %.6f (alpha = 1e-12)"
                                      % (dist_shown, ps, o["seed"], n, L, where, eps), "%.6f" % eps))
+    fails += oracle_scale(lines, impl)
+    return fails
+
+
+# scale maps: parameters scaled so that every draw is multiplied by exactly 2^k (all operations involved are exact
+# under a power-of-two scaling as long as nothing overflows or becomes subnormal)
+def scaled_params(dist, ps, k):
+    f = math.ldexp(1.0, k)
+    if dist in ("normal", "uniform", "gumbel"):
+        return [ps[0] * f, ps[1] * f]
+    if dist == "exp":
+        return [ps[0] / f]
+    if dist == "pareto":
+        return [ps[0], ps[1] * f]
+    if dist == "gamma":
+        return [ps[0], ps[1] / f]
+    return None
+
+
+def scale_exponent(dist, base, ps):
+    for k in SCALE_KS:
+        if scaled_params(dist, base, k) == ps:
+            return k
+    return None
+
+
+SCALE_KS = [1, -1, 3, -7, 40, -40, 200, -200, 500, -500]
+
+
+def oracle_scale(lines, impl):
+    """Two `s` lines of the same distribution, seed and length whose parameters differ by the power-of-two scale map must
+    give draws that differ by exactly that power of two, and the same final state (bit-exact; same for `mvn` pairs with
+    mean * 2^k, covariance * 4^k)."""
+    fails = []
+    groups = {}
+    for i, l in enumerate(lines):
+        if l.startswith("s "):
+            t = l.split()
+            if t[1] in ("normal", "uniform", "gumbel", "exp", "pareto", "gamma"):
+                groups.setdefault(("s", t[1], t[2], t[3]), []).append(i)
+        elif l.startswith("mvn "):
+            t = l.split()
+            groups.setdefault(("mvn", t[3], t[1], t[2]), []).append(i)
+    for key, idx in groups.items():
+        if len(idx) < 2:
+            continue
+        b = idx[0]
+        ob = parse_line(lines[b])
+        sb, tb = parse_reply(impl[b])
+        if sb != "ok":
+            continue
+        for j in idx[1:]:
+            oj = parse_line(lines[j])
+            sj, tj = parse_reply(impl[j])
+            if sj != "ok":
+                continue
+            if key[0] == "s":
+                k = scale_exponent(ob["dist"], ob["ps"], oj["ps"])
+                vb, vj = tb[:-1], tj[:-1]
+                name = "%s%r vs %r" % (ob["dist"], ob["ps"], oj["ps"])
+                fkey = "%s:scale-equivariance" % ob["dist"]
+            else:
+                k = None
+                for kk in SCALE_KS:
+                    f = math.ldexp(1.0, kk)
+                    if [x * f for x in ob["mean"]] == oj["mean"] and [x * f * f for x in ob["cov"]] == oj["cov"]:
+                        k = kk
+                vb, vj = tb[2:-1], tj[2:-1]
+                name = "MVN dimension %d" % ob["d"]
+                fkey = "mvn:scale-equivariance"
+            if k is None or len(vb) != len(vj):
+                continue
+            if tb[-1] != tj[-1]:
+                fails.append(Failure(j, fkey, "%s, same seed, scale 2^%d: the generator state after the call differs" % (name, k)))
+                continue
+            for a, c in zip(vb, vj):
+                x = h2f(a)
+                e = math.ldexp(x, k)
+                if x != x or math.isinf(e) or (e != 0.0 and abs(e) < 2.0 ** -1000) or (x != 0.0 and abs(x) < 2.0 ** -1000):
+                    continue
+                if f2h(e) != c:
+                    fails.append(Failure(j, fkey, "%s, same seed %s, scale 2^%d: draw %r should scale to %r exactly, got %r"
+                                         % (name, key[2], k, x, e, h2f(c)), f2h(e)))
+                    break
     return fails
 
 
@@ -938,7 +1241,7 @@ def oracle_mvn(i, o, st, toks):
             return fails
         n = o["n"]
         if int(toks[0]) != n or int(toks[1]) != d or len(toks) != 3 + n * d:
-            fails.append(Failure(i, "mvn:bulk:sample_n", "MVN sample_n(%d) in dimension %d returned shape %s x %s with %d entries"
+            fails.append(Failure(i, "mvn:bulk:sample_n" if "route" not in o else "mvn:bulk:sample", "MVN sample_n(%d) in dimension %d returned shape %s x %s with %d entries"
                                  % (n, d, toks[0], toks[1], len(toks) - 3)))
         elif any(not math.isfinite(h2f(x)) for x in toks[2:-1]):
             fails.append(Failure(i, "mvn:support:d=%d" % d, "a coordinate of an MVN draw is not finite"))
